@@ -395,7 +395,7 @@ struct Lattice {
         Conf c; c.cls = cls; c.host = host; c.target = target; c.orphans = orphans; c.completion = completion; c.rt = rt;
         int n; try{ n = (cls == "points" ? 0 : npoints(target)) + (int) orphans.size(); }catch(std::exception &){ return; }
         if (n < nmin || n > std::max(nmax, allow) || n + (int) completion.size() > 12) return;
-        if (n >= 6 && variant && cls != "full") return;                      // budget: 6-sample sets of the outputs/transform variants only as full grids
+        if (n >= 6 && variant && cls != "full" && cls != "points") return;                      // budget: 6-sample sets of the outputs/transform variants only as full grids
         if (n >= 7 && (cls != "full" || target.rule == rule_fejer2 || (!target.aw.empty() && target.aw[0] == 2))) return; // budget: five 7-sample sets (cc 2-D anisotropic, rleja, gauss-patterson, sequence rleja, localp-zero)
         if (seen.insert(c.str()).second) confs.push_back(c);
     }
@@ -503,6 +503,14 @@ static std::vector<Conf> lattice(){
         orph(cL(rule_localp, 0, 1, outs, 2), cL(rule_localp, 0, 1, outs, 1), cL(rule_localp, 0, 1, outs, 2), 2);
         orph(cW(1, 1, outs, 2), cW(1, 1, outs, 0), cW(1, 1, outs, 2), 2);
         orph(cW(1, 1, outs, 2), cW(1, 1, outs, 1), cW(1, 1, outs, 2), 1);
+    }
+    // ---------------- point sets that are not grids: a corner of the 2-D hierarchy in which a point has a parent in each direction, so that it can be admitted through
+    // one parent before the other arrives (single-sample deliveries then update the surpluses of points that are already in the grid); 1 and 2 outputs in both tiers
+    for(int outs : {1, 2}) for(auto r : {rule_localp, rule_semilocalp, rule_localp0}) for(int order : {1, 2}){
+        if (r == rule_semilocalp && order < 2) continue; if (r == rule_localp0 && order == 2 && !th) continue;
+        double a = (r == rule_localp0) ? -0.5 : -1.0, b = (r == rule_localp0) ? -0.75 : -0.5;
+        std::vector<Pt> pts = { Pt{0.0, 0.0}, Pt{0.0, a}, Pt{0.0, b}, Pt{a, 0.0}, Pt{a, b}, Pt{a, a} };
+        L.variant = (outs == 2); L.add("points", cL(r, order, 2, outs, 2), cL(r, order, 2, outs, 2), pts, {}, false, 6);
     }
     return L.confs;
 }
